@@ -144,6 +144,7 @@ def shard_main(ctx):
         naming = ["distinct", "identical", "reuse", "arglike"][i % 4]
         g = Gen(rnd, naming=naming, method_form=[0.0, 0.5][(i // 4) % 2], hostile_sel=0.5, pack=0.4)
         g.odd_stage_functions = i % 2 == 0
+        g.runtime_keys = 0.15 if i % 3 == 1 else 0.0
         if i % 8 == 7:
             # C02's targeted re-use families, with a hostile selector spliced in where a projection of the package is taken
             text = c02.targeted_capture(rnd)
